@@ -143,6 +143,7 @@ type VerifR1Config struct {
 
 type VerifR1 struct {
 	party *SignParty
+	r0    *round0 // set by VerifR1NewWaiting: the party has not advanced yet
 	r1    *round1
 	chain *verifR1Chain
 	Log   *VerifR1Logger
